@@ -1827,8 +1827,12 @@ class SQLModel:
         # form) can shadow one of them
         user_names = list(ops.get_tables().keys())
         visit_stack = [ops]
+        visited = set()
         while len(visit_stack) > 0:
             cursor = visit_stack.pop()
+            if id(cursor) in visited:
+                continue
+            visited.add(id(cursor))
             view_name = getattr(cursor, "view_name", None)
             if isinstance(view_name, str):
                 user_names.append(view_name)
